@@ -597,6 +597,9 @@ def repr_float(x):
     """a decimal literal the DBC float grammar accepts (no leading zeros issue, <= 19 digits)"""
     if x == int(x) and abs(x) < 1 << 53:
         return "%d" % int(x)
+    if x == int(x) and abs(x) < 1e30 and (int(abs(x)) % 7 == 3 or abs(x) >= 2 ** 64):
+        # some large integral bounds are written as plain integers of 17..30 digits (the exact value of the float64)
+        return "%d" % int(x)
     r = repr(float(x))
     return r.replace("e+", "e")
 
@@ -659,6 +662,13 @@ def phys_decorate(r, s, nodes, scaled=True):
     s.receivers = ["Vector__XXX"] if not nodes else sorted(set(r.sample(nodes, r.randrange(1, len(nodes) + 1))))
     s.default, s.vds, s.float = None, [], False
     lo, hi = raw_range(s)
+    if scaled and s.length >= 44 and r.random() < 0.8:
+        # a wide signal with a large factor: the natural range lies beyond 2^64 and is written as plain integers
+        s.factor, s.offset = r.choice(["1000000", "1e6", "-1000000", "65536"]), "0"
+        f = float(s.factor)
+        a, b = sorted([lo * f, hi * f])
+        s.min, s.max = repr_float(a), repr_float(b)
+        return
     if scaled and s.length >= 2:
         s.factor = r.choice(PHYS_SCALES)
         s.offset = r.choice(PHYS_OFFSETS)
@@ -787,6 +797,8 @@ def gen_phys_program(rng, name, names_from=None):
                 s.length = rng.choice([2, 3, 4, 7, 8, 9, 10, 12, 16])
             else:
                 s.length = rng.choice([2, 3, 4, 5, 7, 8, 9, 10, 12, 12, 13, 16, 16, 17, 20, 24, 31, 32, 33, 40, 52, 1])
+            if not s.muxed and si == n_muxed and mi == 1 and nbits == 64:
+                s.length = rng.choice([44, 48, 52])     # one wide scaled signal per program (ranges beyond 2^64)
             if s.length > nbits:
                 continue
             behind = m.mux is not None and not s.muxed and hi_mux and (mi % 2 == 0)
